@@ -84,8 +84,13 @@ WRAP_AXIOMS = [
 _fresh = itertools.count()
 
 
+FRESH_LOG = []          # every fresh constant, in creation order (used to skolemise per-element witnesses, see builtins.ite_paths)
+
+
 def fresh(prefix, sort):
-    return Const('%s!%d' % (prefix, next(_fresh)), sort)
+    c = Const('%s!%d' % (prefix, next(_fresh)), sort)
+    FRESH_LOG.append(c)
+    return c
 
 
 def fresh_int(prefix='i'):
